@@ -203,6 +203,27 @@ def canon_model(tok):
     return "200:" + p[1] if p[0] == "200" else p[0]
 
 
+H2STAT = dict(sent=0, answered=0, served=0)
+
+
+def h2_roundtrip(s, rq, v):
+    """the request over h2c from the same source address; rendered like an HTTP/1 response for the monitor; None when HTTP/2 could not carry it"""
+    import h2c
+    hdrs = []
+    if rq["xff"] is not None:
+        if v["hdr"] == '"Forwarded"':
+            hdrs.append((b"forwarded", b", ".join(b"for=" + (b'"[' + x + b']"' if b":" in x else x) for x in re.split(rb"\s*,\s*", rq["xff"]))))
+        else: hdrs.append((b"x-forwarded-for", rq["xff"]))
+    try:
+        c = h2c.Conn(s.port, src=rq["peer"], timeout=4.0)
+        try: st = c.wait([c.send_request(b"GET", rq["target"], headers=hdrs, authority=rq["host"])])[0]
+        finally: c.close()
+    except Exception:
+        return None
+    if not st or not st.get("headers"): return None
+    return b"HTTP/1.1 " + dict(st["headers"]).get(b":status", b"0") + b" h2\r\n\r\n" + st["body"]
+
+
 def start_variant(ctx, v, sanitize=False):
     files = {p: marker(t) for p, t in FILES.items()}
     s = srv.Server(ctx, v["name"], CONF % v["hdr"], files=files, modules=MODS, extra_top=v["top"], sanitize=sanitize)
@@ -232,6 +253,17 @@ def run_variant(ctx, v, reqs, model, sanitize=False):
                 try: r2 = s.roundtrip(render_http(fixed, v), src=rq["peer"])
                 except OSError: r2 = b""
                 if monitor(fixed, r2) is None and not any(marker(t) in r2 for t in IPONLY): klass = "xff-hop-without-address-skipped"
+            if not why and len(resps) % 5 == 0 and rq["target"].startswith(b"/"):
+                # the same request over HTTP/2: same protection (monitor) and the same decision as over HTTP/1.1
+                r2 = h2_roundtrip(s, rq, v)
+                H2STAT["sent"] += 1; H2STAT["answered"] += r2 is not None; H2STAT["served"] += bool(r2 and r2.startswith(b"HTTP/1.1 200"))
+                if r2 is not None:
+                    why = monitor(rq, r2)
+                    if why: why = "over HTTP/2: " + why
+                    else:
+                        a, b = canon_impl(resps[-1], v["lc"]), canon_impl(r2, v["lc"])
+                        if (a.startswith("200:") or b.startswith("200:")) and a != b and not rq["abs"]:
+                            why = "HTTP/1.1 and HTTP/2 disagree on the same request: %s over HTTP/1.1, %s over HTTP/2" % (a, b)
             mons.append((why, klass) if why else None)
             if not s.alive(): break
         alive = s.alive()
@@ -298,7 +330,7 @@ def run(ctx):
                          for i in range(0, len(resps), max(1, len(resps) // 2))][:2])
     ctx.cov["evaluations"] += nreq
     ctx.cov["distinct_nontrivial"] += served
-    ctx.cov["distribution"] = dict(status=dist, served=served, requests=nreq)
+    ctx.cov["distribution"] = dict(status=dist, served=served, requests=nreq, over_http2=dict(H2STAT))
     ctx.cov["rule"] = ("5 server configurations (default parseopts; force-lowercase-filenames; url-normalize-required + backslash-trans without 2f-decode; url-normalize off; "
                        "Forwarded header) x base URLs (11 marker files behind url.access-deny suffixes, exclude-extensions, auth.require, $HTTP[url] prefix / regex-suffix "
                        "blocks, nested url/remoteip blocks both ways, a $HTTP[host] block; directories; missing files) x respelling chains of depth 0-10 over 20 step kinds "
